@@ -1,6 +1,8 @@
 (* One handler per correspondence suite: runs the extracted model on the case's
    inputs and the extracted spec oracle on the implementation's observation. *)
 open Lospan_model
+type cstring = Lospan_model.string
+type string = Stdlib.String.t
 open Util
 
 let e = aes_enc
@@ -251,7 +253,12 @@ let s_phyenc g obs =
     end else "ok" in
   (model, verdict)
 
+(* ---- server histories (C01..C09) ---- *)
+let s_hist judge g obs = Hist.run_history g obs judge
+let no_judge _ _ = "ok"
+
 let register_all register =
+  List.iter (fun n -> register ("hist" ^ n) (s_hist no_judge)) ["C01"; "C02"; "C03"; "C04"; "C05"; "C06"; "C07"; "C08"; "C09"];
   register "phy" s_phy;
   register "phyenc" s_phyenc;
   register "maccmd" s_maccmd;
